@@ -60,7 +60,7 @@ def jobs(tier):
     # the dro wrapper classes over the same algebra
     js += [{"name": f"dro-convex-{xt}", "kind": "convex", "xtype": xt, "front": "dro"} for xt in XTYPES]
     js += [{"name": f"dro-persp-{xt}", "kind": "persp", "xtype": xt, "front": "dro"} for xt in "XL"]
-    js += [{"name": "dro-piecewise", "kind": "piecewise", "front": "dro"}, {"name": "adaptive-atoms", "kind": "adaptive_atoms"}]
+    js += [{"name": "dro-piecewise", "kind": "piecewise", "front": "dro"}, {"name": "adaptive-atoms", "kind": "adaptive_atoms"}, {"name": "atom-arguments", "kind": "atom_arguments"}]
     return js
 
 
@@ -447,6 +447,59 @@ def atom_ctors():
     return out
 
 
+def atom_arguments():
+    """Argument validation of the atom constructors is part of "raises iff the use is not (dis)ciplined convex": a
+    quadratic form with an indefinite matrix, a p-norm of degree <= 1, a power below one, non-integer or non-positive
+    weights ... must raise; a negative semidefinite quadratic form is concave and denotes x'Qx.  Concrete (native) cases."""
+    from ..engine import check_enumeration
+
+    def run():
+        m = ro.Model()
+        x = m.dvar(2)
+        X2 = m.dvar((2, 2))
+        e = 2.0 * x - 1.0
+        pts = [np.array([1.0, -2.0]), np.array([0.5, 0.25]), np.array([-3.0, 0.0])]
+
+        def val(cv, xv):
+            full = np.zeros(m.rc_model.last)
+            full[x.first:x.first + 2] = xv
+            return float(np.asarray(atoms.den_convex(cv, full), dtype=float).reshape(-1)[0])
+        for Q, sign in ((np.array([[5.0, 5.0], [5.0, 10.0]]), 1), (np.array([[-2.0, 1.0], [1.0, -3.0]]), -1), (np.array([[1.0, 2.0], [2.0, 4.0]]), 1),
+                        (np.zeros((2, 2)), 1), (np.array([[2.0, 0.0], [0.0, 0.0]]), 1)):
+            for recv in (x, e, x[::-1]):
+                cv = rsome.quad(recv, Q)
+                if cv.sign != sign and not (Q == 0).all():
+                    return f"quad with eigenvalues of sign {sign}: tracked sign {cv.sign}"
+                for xv in pts:
+                    arg = xv if recv is x else 2 * xv - 1 if recv is e else xv[::-1]
+                    if abs(val(cv, xv) - float(arg @ Q @ arg)) > 1e-7 * (1 + abs(float(arg @ Q @ arg))):
+                        return f"quad({Q.tolist()}) at {xv.tolist()}: {val(cv, xv)} vs {float(arg @ Q @ arg)}"
+        must_raise = {
+            "quad with an indefinite matrix": lambda: rsome.quad(x, np.array([[1.0, 3.0], [3.0, 1.0]])),
+            "quad of a 2-D array": lambda: rsome.quad(X2, np.eye(2)),
+            "pnorm degree 1": lambda: rsome.pnorm(x, 1), "pnorm degree 0.5": lambda: rsome.pnorm(x, 0.5), "pnorm degree (2,3)": lambda: rsome.pnorm(x, (2, 3)),
+            "pnorm degree (3.0,2)": lambda: rsome.pnorm(x, (3.0, 2)), "pnorm float degree with method soc": lambda: rsome.pnorm(x, 2.5, method="soc"),
+            "pnorm unknown method": lambda: rsome.pnorm(x, 3, method="lp"), "pnorm of a 2-D array": lambda: rsome.pnorm(X2, 3),
+            "power below one": lambda: rsome.power(x, 1, 2), "power mixed below one": lambda: rsome.power(x, np.array([3, 1]), np.array([1, 2])),
+            "power non-integer": lambda: rsome.power(x, 2.5), "gmean non-integer weights": lambda: rsome.gmean(x, [1, 1.5]),
+            "gmean zero weight": lambda: rsome.gmean(x, [1, 0]), "gmean wrong number of weights": lambda: rsome.gmean(x, [1, 2, 3]),
+            "gmean of a 2-D array": lambda: rsome.gmean(X2), "norm of a 2-D array": lambda: rsome.norm(X2, 2), "norm of degree 0.5": lambda: rsome.norm(x, 0.5),
+            "sumsqr of a 2-D array": lambda: X2.to_affine().sumsqr(), "rsocone with a vector y": lambda: rsome.rsocone(x, x, 1.0),
+            "expcone with a vector x": lambda: rsome.expcone(x[0], x, 1.0), "expcone with a vector z": lambda: rsome.expcone(x[0], 1.0, x), "kldiv with mismatching sizes": lambda: rsome.kldiv(x, np.array([0.2, 0.3, 0.5]), 0.1),
+        }
+        for name, f in must_raise.items():
+            try:
+                r = f()
+            except (ValueError, TypeError):
+                continue
+            return f"{name}: accepted ({type(r).__name__})"
+        if type(rsome.power(x, 2, 2)).__name__ != "Convex" or rsome.power(x, 2, 2).xtype != "A":
+            return "power(x, 2, 2) is not abs(x)"
+        return True
+    return check_enumeration("rsome.lp:Affine.<atom constructors>", "arguments-outside-the-convex-discipline-raise-and-semidefinite-quadratic-forms-denote-x'Qx",
+                             "quad (5 matrices x 3 receivers x 3 points) and 22 invalid calls", run)
+
+
 def bilinear():
     out = []
 
@@ -581,6 +634,8 @@ def _run_job(job):
         return bilinear()
     if k == "adaptive_atoms":
         return adaptive_atoms()
+    if k == "atom_arguments":
+        return atom_arguments()
     if k == "atoms":
         return atom_ctors()
     raise ValueError(k)
